@@ -354,8 +354,21 @@ def rule_MSK(FA):
                 src = a[2]
                 if any(isinstance(x, tuple) and x and x[0] == 'call' and x[1].split('::')[-1] == 'next' for x in subterms(src)):
                     good = True
+        # extend is "for each element: push": it must not touch the line vector or the position itself
+        direct = [w for w in _field_writes(E)]
+        touching = []
+        for bi, t in E.calls():
+            if t['f']['fn']['name'] in ('push',) and len(t['args']) == 2 and norm(E.operand_term(t['args'][0])) == SELF:
+                continue
+            for a in t['args'][:1]:
+                tm = norm(E.operand_term(a))
+                if contains(tm, ('field', SELF, 'data')) or contains(tm, ('field', SELF, 'position')):
+                    touching.append(short_callee(t['f']['fn']))
+        if direct or touching:
+            good = False
         out.append(Inst('R-MSK', 'R-MSK|QVectorBuilder::extend', 'ok' if good else 'violation', ext[0]['span'],
-                        'extend pushes as_::<u8>() of every yielded element' if good else 'extend does not push as_() of each yielded element', props))
+                        'extend pushes as_::<u8>() of every yielded element and nothing else' if good else
+                        'extend is not "push(as_()) of each yielded element": %s' % (', '.join(['writes self.%s' % w[1] for w in direct] + touching) or 'no such push found'), props))
     return out
 
 
@@ -469,6 +482,51 @@ def rule_DAR(FA):
                             sample={'count_terms': [show(c)[:120] for c in cnt_terms]}))
     if n_app < 2:
         out.append(Inst('R-DAR', 'R-DAR|flush_block appends', 'violation', fl['span'], 'expected an append to subblock_inventory in both branches, found %d' % n_app, props))
+    # sparse-group pointer: the writer stores -(len(overflow_positions)) - 1 *before* appending the group's positions to
+    # that same array; the reader decodes (-p - 1) and indexes overflow_positions with it
+    ov_param = None
+    bi_param = None
+    for k, v in fl['names'].items():
+        if v == 'overflow_positions':
+            ov_param = ('param', v)
+        if v == 'block_inventory':
+            bi_param = ('param', v)
+    ov_param = ov_param or ('param', fl['names'].get('4', '_4'))
+    bi_param = bi_param or ('param', fl['names'].get('2', '_2'))
+    enc = []
+    for bi, t in F.calls():
+        fn = t['f']['fn']
+        if fn['name'] == 'push' and t['args'] and norm(F.operand_term(t['args'][0])) == bi_param:
+            v = norm(F.operand_term(t['args'][1]))
+            if any(isinstance(x, tuple) and x and x[0] == 'un' and x[1] == 'Neg' for x in subterms(v)):
+                enc.append((v, t['line']))
+    key = 'R-DAR|sparse pointer encoding'
+    if not enc:
+        out.append(Inst('R-DAR', key, 'violation', fl['span'], 'no negative group pointer pushed to block_inventory (anchor lost)', props))
+    else:
+        v, line = enc[0]
+        want = norm(('bin', 'Sub', ('un', 'Neg', ('cast', 'i64', ('call', 'std::vec::Vec::len', (ov_param,)))), ('const', 1)))
+        wok = v == want
+        # reader
+        rok = False
+        rterm = None
+        for spec in FA.specs(sel):
+            S = FA.fn(sel, spec)
+            for b in S.blocks:
+                for s2 in b['s']:
+                    rv = s2.get('rv')
+                    if rv and rv['k'] == 'cast' and rv['to'] == 'usize':
+                        tt = norm(S.operand_term(rv['a']))
+                        if tt[0] == 'bin' and tt[1] == 'Sub' and tt[3] == ('const', 1) and tt[2][0] == 'un' and tt[2][1] == 'Neg':
+                            rterm = tt
+                            rok = True
+        if wok and rok:
+            out.append(Inst('R-DAR', key, 'ok', line, 'writer stores -(len(overflow_positions)) - 1, reader decodes -(p) - 1', props,
+                            sample={'writer': show(v), 'reader': show(rterm)}))
+        else:
+            out.append(Inst('R-DAR', key, 'violation', line,
+                            'sparse group pointer is `%s`%s: it must be -(current length of overflow_positions) - 1, the index at which this group\'s positions are appended, and the reader must decode -(p) - 1' % (
+                                show(v)[:100], '' if rok else ' and the reader does not decode -(p) - 1'), props, sample={'writer': show(v), 'reader': show(rterm) if rterm else None}))
     # narrowing store is dominated by span < C <= 2^16
     n_cast = 0
     for bi, b in enumerate(F.blocks):
@@ -748,6 +806,35 @@ def _spc_fields(FA, f, depth=0):
     return fields
 
 
+ACCOUNTING = ('space_usage_byte', 'capacity', 'len', 'iter', 'into_iter', 'flatten', 'as_ref', 'as_slice', 'deref')
+
+
+def _spc_accounted(FA, f):
+    """Fields of self that are handed (directly or through iterator plumbing) to a call that measures owned memory:
+    space_usage_byte(), capacity(), len() or an iteration over the elements.  `size_of_val(&self.f)` only
+    measures the handle."""
+    F = FA.fn(f)
+    out = set()
+    for bi, t in F.calls():
+        fn = t['f']['fn']
+        if fn['name'] not in ACCOUNTING:
+            continue
+        for a in t['args']:
+            tm = norm(F.operand_term(a))
+            for st in subterms(tm):
+                if isinstance(st, tuple) and st and st[0] == 'field' and st[1] == SELF:
+                    out.add(st[2])
+    # indexed loops over a fixed array field: self.f[c].space_usage_byte()
+    for b in F.blocks:
+        for s2 in b['s']:
+            rv = s2.get('rv')
+            if rv and rv['k'] == 'ref' and rv['p']['l'] == 1:
+                fs = [e['f'] for e in rv['p']['proj'] if isinstance(e, dict) and 'f' in e]
+                if fs and any(isinstance(e, dict) and ('idx' in e or 'cidx' in e) for e in rv['p']['proj']):
+                    out.add(fs[0])
+    return out
+
+
 SPC_EXCEPTIONS = {
     ('quadwt::huffqwt::HuffQWaveletTree', 'codes_encode'): 'accounted by a constant; the property grants sigma-proportional slack for the code tables',
     ('binwt::WaveletTree', 'codes_encode'): 'accounted by a constant; the property grants sigma-proportional slack for the code tables',
@@ -812,7 +899,8 @@ def rule_SPC(FA):
         got = _spc_fields(FA, f)
         comp = _component_params(FA, base)
         heap = [x['name'] for x in adt['fields'] if _heap_bearing(FA, x, comp)]
-        missing = [h for h in heap if h not in got and '*self' not in got and (base, h) not in SPC_EXCEPTIONS]
+        acc = _spc_accounted(FA, f)
+        missing = [h for h in heap if (h not in got or h not in acc) and '*self' not in got and (base, h) not in SPC_EXCEPTIONS]
         key = 'R-SPC|%s' % base
         if missing:
             out.append(Inst('R-SPC', key, 'violation', f['span'],
@@ -854,3 +942,82 @@ def _float_const(t):
         except ValueError:
             return None
     return None
+
+
+# ---------------------------------------------------------------- R-NEG
+
+def _raw_load(t):
+    """Term is a stored word read as it is: slice/array element, get_word(..), field or parameter."""
+    t = strip_ref(t)
+    if not isinstance(t, tuple) or not t:
+        return False
+    if t[0] in ('index', 'param', 'field', 'variant'):
+        return True
+    if t[0] == 'call' and t[1].split('::')[-1] in ('get_word', 'get_unchecked', 'index', 'deref', 'clone', 'unwrap'):
+        return True
+    return False
+
+
+def rule_NEG(FA):
+    out = []
+    n = 0
+    for f in FA.lib_fns(include_closures=False):
+        if 'BIT' not in FA.const_params(f):
+            continue
+        props = ['C08', 'C07'] if 'bitvector' in f['path'] else ['C07']
+        for spec in FA.specs(f):
+            if spec.get('BIT', False):
+                continue
+            F = FA.fn(f, spec)
+            F.dom()
+            for bi, b in enumerate(F.blocks):
+                if bi not in F.reach:
+                    continue
+                for s in b['s']:
+                    rv = s.get('rv')
+                    if not rv or rv['k'] != 'un' or rv['op'] != 'Not':
+                        continue
+                    a = rv['a']
+                    if 'p' not in a:
+                        continue
+                    lt = F.locals[a['p']['l']] if not a['p']['proj'] else ''
+                    if a['p']['proj'] or lt not in ('u64', 'u128', 'usize', 'u32'):
+                        continue
+                    n += 1
+                    ds = [d for d in F.defs.get(a['p']['l'], []) if d[0] in F.reach]
+                    terms = []
+                    for d in ds:
+                        terms.append(norm(F.rvalue_term(d[2])) if d[1] == 'assign' else norm(F.call_term(d[2])))
+                    # a copy of a loop-carried variable: look at that variable's definitions instead
+                    flat = []
+                    dom = F.dom()
+                    for t in terms:
+                        if t[0] == 'unknown':
+                            for l2, nm in F.names.items():
+                                if nm == t[1]:
+                                    cands = []
+                                    for d in F.defs.get(l2, []):
+                                        if d[0] in F.reach:
+                                            tt = norm(F.rvalue_term(d[2])) if d[1] == 'assign' else norm(F.call_term(d[2]))
+                                            if not (tt[0] == 'un' and tt[1] == 'Not'):
+                                                cands.append((d[0], tt))
+                                    # the definition that reaches this complement: the closest dominating one
+                                    domi = [c for c in cands if c[0] in dom[bi] and c[0] != bi]
+                                    if domi:
+                                        best = max(domi, key=lambda c: len(dom[c[0]]))
+                                        flat.append(best[1])
+                                    else:
+                                        flat.extend(c[1] for c in cands)
+                        else:
+                            flat.append(t)
+                    bad = [t for t in flat if not _raw_load(t) and t[0] != 'unknown']
+                    key = 'R-NEG|%s%s' % (fn_key(f), spec_key(spec))
+                    if bad:
+                        out.append(Inst('R-NEG', key, 'violation', s['line'],
+                                        'the complement used to find zeros is taken of `%s`, not of the stored word: bits shifted or masked in as 0 become spurious zeros' % show(bad[0])[:80], props,
+                                        sample={'operand': [show(t)[:100] for t in flat]}))
+                    else:
+                        out.append(Inst('R-NEG', key, 'ok', s['line'], 'complement of the stored word', props, sample={'operand': [show(t)[:100] for t in flat]}))
+    if n == 0:
+        out.append(Inst('R-NEG', 'R-NEG|anchors', 'violation', '', 'no word complement found in BIT = false specialisations (anchor lost)', ['C08', 'C07']))
+    return out
